@@ -700,7 +700,25 @@ pub fn main(args: &[String]) {
             "pin" => {
                 unit_counter += 1;
                 if unit_counter % shards != shard || bita.is_empty() { continue; }
-                let b = base(8, "none", 8);
+                let how = c.get("how").and_then(|h| h.as_str()).unwrap_or("plain");
+                let mut b = base(8, "none", 8);
+                if how != "plain" {
+                    // a seed / prior output can only stand in for the archive's chunks if bita's own chunker finds them again: the archive of these
+                    // cases is written by `bita compress` itself (fixed-size chunks), not by the independent encoder
+                    let sp = format!("{}/pinsrc_{}.bin", dir, unit_counter);
+                    let ap = format!("{}/pinarch_{}.cba", dir, unit_counter);
+                    let mut x = 0x9E3779B97F4A7C15u64 ^ unit_counter as u64;
+                    let src: Vec<u8> = (0..6000).map(|_| { x = x.wrapping_mul(6364136223846793005).wrapping_add(1442695040888963407); (x >> 33) as u8 }).collect();
+                    std::fs::write(&sp, &src).unwrap();
+                    let _ = std::fs::remove_file(&ap);
+                    let (r, _) = cli_run(&bita, &["compress".into(), "-i".into(), sp.clone(), ap.clone(), "--fixed-size".into(), "512".into(), "--compression".into(), "none".into()], None, Duration::from_secs(30));
+                    let arch = std::fs::read(&ap).unwrap_or_default();
+                    let _ = std::fs::remove_file(&sp);
+                    let _ = std::fs::remove_file(&ap);
+                    if r != "ok" || refcodec::decode_archive(&arch).is_err() { continue; }
+                    b.archive = arch;
+                    b.src_bytes = src;
+                }
                 let d = refcodec::decode_archive(&b.archive).unwrap();
                 let good = refcodec::hex(&d.cksum);
                 let pin = c["pin"].as_str().unwrap();
@@ -713,8 +731,13 @@ pub fn main(args: &[String]) {
                     _ => "".to_string(),
                 };
                 ncase += 1;
-                emit(json!({"ev": "case", "n": ncase, "kind": "pin", "pin": pin, "region": "none", "chunk": -1, "needed": true, "len": b.archive.len(), "alg": 2, "f": {}}), &mut w);
-                let e = cli("cli_clone", &b.archive, &[], &[], &b.src_bytes, &format!("{}", ncase), &["--verify-header".to_string(), val]);
+                emit(json!({"ev": "case", "n": ncase, "kind": "pin", "pin": pin, "how": how, "region": "none", "chunk": -1, "needed": true, "len": b.archive.len(), "alg": 2, "f": {}}), &mut w);
+                let extra = ["--verify-header".to_string(), val];
+                let e = match how {
+                    "seed_full" => cli("cli_clone_seed", &b.archive, &b.src_bytes, &[], &b.src_bytes, &format!("{}", ncase), &extra),
+                    "inplace_full" => cli("cli_clone_inplace", &b.archive, &[], &b.src_bytes, &b.src_bytes, &format!("{}", ncase), &extra),
+                    _ => cli("cli_clone", &b.archive, &[], &[], &b.src_bytes, &format!("{}", ncase), &extra),
+                };
                 nrun += 1;
                 emit(e, &mut w);
                 emit(json!({"ev": "done"}), &mut w);
